@@ -108,6 +108,10 @@ type c02World struct {
 	emitted map[string]bool
 	cold    bool
 	ee      bool
+	// request kinds (verif_c02_kinds_test.go)
+	digIDs   map[string]uint64 // revision digest -> number
+	negFirst map[string]string // negotiation request -> first observed answer (must not depend on the reader)
+	legacy   *c02Legacy
 }
 
 type c02Env struct {
@@ -120,6 +124,8 @@ type c02Env struct {
 	adminToo map[string]int
 	revN     uint64
 	attN     uint64
+	stubs    int            // stubs checked by removed_stub_has_no_body
+	shapeN   map[string]int // revision ids / existence of never-granted documents handed out by point requests
 }
 
 func (e *c02Env) fail(monitor, signature string, input any, detail string) {
@@ -197,16 +203,16 @@ func (w *c02World) mayDisclose(u *c02User, chans []string) bool {
 	return false
 }
 
-// lower bound: the revision is in a channel the user holds (wildcard: any channel at all; a document without
-// channels is in no channel, so only a wildcard held by the user itself is required to cover it)
+// lower bound: the revision is in a channel the user holds, or the user holds the wildcard -- directly or through
+// a role (since /repo a58a51d also for a document without channels in the default collection)
 func (w *c02World) mustSee(u *c02User, chans []string) bool {
 	eff := w.effective(u)
 	for _, c := range chans {
-		if eff[c] || eff["*"] {
+		if eff[c] {
 			return true
 		}
 	}
-	return w.ownSet(u)["*"]
+	return eff["*"]
 }
 
 // the document was at some time in one of the user's channels
@@ -597,7 +603,8 @@ func (w *c02World) setupPrincipals() {
 
 func c02NewWorld(e *c02Env, tag string, named bool) *c02World {
 	w := &c02World{e: e, tag: tag, named: named, attByID: map[uint64]*c02Att{}, chanIDs: map[string]uint64{"*": 0, "!": 1},
-		attName: map[string]uint64{}, first: map[string]string{}, emitted: map[string]bool{}, ee: base.IsEnterpriseEdition()}
+		attName: map[string]uint64{}, first: map[string]string{}, emitted: map[string]bool{}, ee: base.IsEnterpriseEdition(),
+		digIDs: map[string]uint64{}, negFirst: map[string]string{}}
 	cfg := &RestTesterConfig{SyncFn: c02SyncFn, AutoImport: base.Ptr(false)}
 	if named {
 		w.rt = NewRestTester(e.t, cfg)
@@ -1762,6 +1769,8 @@ func (w *c02World) seeStream() {
 
 func (w *c02World) run(quick bool) {
 	w.readBack()
+	w.addLegacy()
+	_ = w.userReq(w.users[0], "PUT", "/{{.keyspace}}/_local/c02"+w.tag, `{"note":"checkpoint of `+w.users[0].name+`"}`, nil)
 	w.rt.WaitForPendingChanges()
 	w.seeStream()
 	for _, cold := range []bool{false, true} {
@@ -1776,6 +1785,7 @@ func (w *c02World) run(quick bool) {
 			w.bulkAll(u)
 			w.allDocs(u, quick)
 			w.changes(u, quick)
+			w.kinds(u, quick)
 			w.blip(u, quick, db.CBMobileReplicationV3)
 			if !quick {
 				w.blip(u, true, db.CBMobileReplicationV2)
@@ -1789,7 +1799,7 @@ func TestVerifC02(t *testing.T) {
 	rec := vNewRecorder(t, "C02", "C02.C02_Corr")
 	defer rec.Finish()
 	base.SetUpTestLogging(t, base.LevelError, base.KeyNone)
-	e := &c02Env{t: t, rec: rec, rnd: vNewRand(vSeed()), failN: map[string]int{}, adminToo: map[string]int{}}
+	e := &c02Env{t: t, rec: rec, rnd: vNewRand(vSeed()), failN: map[string]int{}, adminToo: map[string]int{}, shapeN: map[string]int{}}
 	thorough := vThorough()
 	type plan struct {
 		tag       string
@@ -1826,6 +1836,8 @@ func TestVerifC02(t *testing.T) {
 		rec.Extra("current_revision_unreadable_for_admin_too", map[string]any{"count": len(e.adminToo), "samples": keys})
 	}
 	rec.Extra("worlds", len(plans))
+	rec.Extra("stubs_checked", e.stubs)
+	rec.Extra("shape_disclosed_by_point_requests", e.shapeN)
 	rec.Extra("enterprise_edition", base.IsEnterpriseEdition())
 	rec.Extra("harness_seconds", time.Since(t0).Seconds())
 	rec.Extra("surfaces", []string{"GET doc (current / rev / cv) x flags", "open_revs (all / list / single; json / multipart)", "_bulk_get (single entries / whole world)",
